@@ -77,7 +77,7 @@ def nontrivial(case, out):
         and case.count("screate") >= 1 and any(o.startswith("sdef") for o in case.split())
 
 
-CLI_VALUES = ["0", "1", "-1", "5", "007", "-0", "2147483647", "2147483648", "-2147483649", "4294967296", "5000000000", "9223372036854775807",
+CLI_VALUES = ["0", "1", "-1", "5", "007", "-0", "010", "0100", "-0012", "0900", "08", "00", "0017777777777", "2147483647", "2147483648", "-2147483649", "4294967296", "5000000000", "9223372036854775807",
               "1.5", "-2.5", "0.25", "1.", "-1.", "10.0", ".5", "-.5", "1.2.3", "10.0.0.1", "1..2", "-", "--1", "1-", "+1", "1e5", "0x10", "1,5",
               "k=v", "QUJDRA==", "a=b=c", "=", "=x", "1=2", "true", "false", "True", "TRUE", "truee", "abc", "a.b", "3a", "a3", " 1", "1 ", "my string", "", ".", "-.", "..", "1.2.", "12:30"]
 
